@@ -8,6 +8,8 @@ package foreach
 // order of those events blocks the run for ever.
 
 import (
+	"go.flow.arcalot.io/expressions"
+	"go.flow.arcalot.io/engine/internal/infer"
 	"go.flow.arcalot.io/engine/internal/step"
 	"go.flow.arcalot.io/engine/internal/verifrt"
 	"go.flow.arcalot.io/engine/workflow"
@@ -70,6 +72,29 @@ func VerifH_C09_real_foreach() {
 	res := workflow.VerifRun(p, any([]any{verifrt.NondetVal("item")}))
 	verifrt.Assert(!res.Stuck, "the run returns")
 	verifrt.Assert(res.Err == nil && res.ID == "success", "a healthy loop returns its success output however slow one goroutine is")
+	if res.Err == nil {
+		verifrt.Reach("output")
+	}
+	verifrt.Settle()
+	verifrt.Assert(verifrt.LiveGoroutines() == 0, "no goroutine survives the run")
+}
+
+
+// C09 / composition: as VerifH_C09_real_foreach, with a wait-optional value from the loop's other branch
+// (failed.error) in the output: once every item has succeeded the result is fixed, however slow the loop
+// step's goroutine is between two of its notifications.
+func VerifH_C09_real_foreach_optional_other_branch() {
+	sub := &vSub{gate: make(chan struct{}), outcome: []int{0}}
+	close(sub.gate)
+	var rn step.RunnableStep = &runnableStep{workflow: sub, logger: vLogger{}}
+	p := workflow.VerifPrepareSteps([]workflow.VerifStep{{ID: "l1", Provider: &forEachProvider{logger: vLogger{}}, Runnable: rn, Fields: map[string]any{"items": workflow.VerifExpr("input")}}},
+		map[string]any{"success": map[any]any{
+			"a": workflow.VerifExpr("steps", "l1", "outputs", "success", "data"),
+			"e": &infer.OptionalExpression{Expr: workflow.VerifExpr("steps", "l1", "failed", "error").(expressions.Expression), WaitForCompletion: true},
+		}})
+	res := workflow.VerifRun(p, any([]any{verifrt.NondetVal("item")}))
+	verifrt.Assert(!res.Stuck, "the run returns")
+	verifrt.Assert(res.Err == nil && res.ID == "success", "the result is fixed once every item succeeded: it is returned however slow the loop's goroutine is between two notifications")
 	if res.Err == nil {
 		verifrt.Reach("output")
 	}
